@@ -59,6 +59,8 @@ func main() {
 		os.Exit(replayCase(*name, *mem, *deadline))
 	case "list":
 		listCases(os.Stdout)
+	case "l2order":
+		os.Exit(l2Order(os.Args[2:]))
 	case "l2":
 		os.Exit(l2Parent(os.Args[2:]))
 	case "l2child":
